@@ -2,7 +2,7 @@
 import re
 
 from .. import hirq, nf, panic
-from ..rulelib import tree_of, user_nodes, for_loops, loop_exits, def_exprs, short
+from ..rulelib import tree_of, user_nodes, for_loops, loop_exits, def_exprs, short, resolver_of
 
 RULES = {
     "EST": "each counting estimator is: F1 a length comparison ending in a panic or an Err return, before the loop; F2 one loop over "
@@ -52,11 +52,85 @@ def _balanced(s):
     return d == 0
 
 
+def count_helper(facts, fn):
+    """an in-crate helper that returns the number of equal same-index pairs of its two slice parameters over the full
+    range of one of them: returns (index of a, index of b, range param index) or None"""
+    t = tree_of(fn)
+    fls = for_loops(fn)
+    loops = [n for n in t.nodes if n["k"] == "Loop" and not hirq.in_log_macro(n)]
+    if len(fls) != 1 or loops != [fls[0]["loop"]]:
+        return None
+    fl = fls[0]
+    var = hirq.show_pat(fl["pat"])
+    accs = [n for n in user_nodes(fn) if n["k"] in ("Assign", "AssignOp") and t.contains(fl["body"], n)]
+    if len(accs) != 1 or accs[0]["k"] != "AssignOp" or accs[0]["op"] != "+=" or nf.nf(accs[0]["r"]) != "1":
+        return None
+    cnt = nf.nf(accs[0]["l"])
+    conds = nf.all_conditions(t, accs[0], stop=fl["loop"])
+    if len(conds) != 1 or conds[0][0] != "cmp" or conds[0][2] != "==":
+        return None
+    m1, m2 = re.match(r"^(\w+)\[(\w+)\]$", conds[0][1]), re.match(r"^(\w+)\[(\w+)\]$", conds[0][3])
+    names = [hirq.show_pat(p["pat"]) for p in fn["params"]]
+    if not m1 or not m2 or m1.group(2) != var or m2.group(2) != var or m1.group(1) == m2.group(1) or m1.group(1) not in names or m2.group(1) not in names:
+        return None
+    rng = nf.nf(fl["iter"], True)
+    m = re.match(r"^std::ops::Range\{start:0, end:(\w+)\.len\(\)\}$", rng)
+    if not m or m.group(1) not in (m1.group(1), m2.group(1)):
+        return None
+    if [k for (k, n) in loop_exits(fn, fl["loop"]) if k != "iterator-exhausted"]:
+        return None
+    body = fn["hir"]
+    if "expr" not in body or nf.nf(body["expr"], True) != cnt or [nf.nf(e) for e in def_exprs(fn, cnt)][:1] != ["0"]:
+        return None
+    return (names.index(m1.group(1)), names.index(m2.group(1)), names.index(m.group(1)))
+
+
+def est_via_helper(ctx, facts, fid):
+    """the estimator delegates the counting to an in-crate helper: F2/F3 are checked in the helper, F1/F4 in the caller"""
+    fn = facts.fn(fid)
+    t = tree_of(fn)
+    where = hirq.loc(fn)
+    calls = [n for n in user_nodes(fn) if n["k"] == "Call" and n.get("callee") in facts.fns and "hir" in facts.fns[n["callee"]] and not hirq.from_expansion(n)]
+    if len(calls) != 1:
+        return False
+    c = calls[0]
+    h = count_helper(facts, facts.fns[c["callee"]])
+    if h is None:
+        return False
+    a, b = nf.nf(c["args"][h[0]], True), nf.nf(c["args"][h[1]], True)
+    if a == b:
+        return False
+    lens = {"%s.len()" % a, "%s.len()" % b}
+    fs = nf.early_facts(t, c)
+    if not any(f[0] == "cmp" and f[2] == "==" and {_resolve(fn, f[1]), _resolve(fn, f[3])} == lens for f in fs):
+        return False
+    body = fn["hir"]
+    rets = [n["e"] for n in user_nodes(fn) if n["k"] == "Ret" and "e" in n and n["sp"][1] > c["sp"][1]] + ([body["expr"]] if "expr" in body else [])
+    if len(rets) != 1:
+        return False
+    R = resolver_of(fn)
+    r = nf.nf(rets[0], True, res=R)
+    r = re.sub(r"^std::prelude::v1::Ok\((.*)\)$", r"\1", r)
+    callnf = nf.nf(c, True, res=R)
+    r = r.replace("num::NumCast::from(", "(").replace(").unwrap()", ")")
+    while r.startswith("(") and r.endswith(")") and _balanced(r[1:-1]):
+        r = r[1:-1]
+    ok = any(r in ("%s / %s" % (x, l), "(%s) / %s" % (x, l), "(%s) / (%s)" % (x, l), "%s / (%s)" % (x, l)) for x in (callnf,) for l in lens)
+    if ok:
+        ctx.ok("EST", fid, "length check; count delegated to %s (template verified there); result count / len" % short(c["callee"]), where)
+        return c["callee"]
+    return False
+
+
 def est_template(ctx, facts, fid):
     fn = facts.fn(fid)
     t = tree_of(fn)
     where = hirq.loc(fn)
     fls = for_loops(fn)
+    if not [n for n in t.nodes if n["k"] == "Loop" and not hirq.in_log_macro(n)]:
+        hid = est_via_helper(ctx, facts, fid)
+        if hid:
+            return ("helper", hid)
     if len(fls) != 1 or [n for n in t.nodes if n["k"] == "Loop" and not hirq.in_log_macro(n)] != [fls[0]["loop"]]:
         ctx.violation("EST", fid, "F2 loop", where, "expected exactly one for loop, found %d loop(s)" % len([n for n in t.nodes if n["k"] == "Loop"]))
         return None
@@ -258,6 +332,8 @@ def run(ctx, facts):
     for fid in have:
         r = est_template(ctx, facts, fid)
         ne += panic_table(ctx, facts, fid, PANIC_COUNTING)
+        if r and r[0] == "helper":
+            ne += panic_table(ctx, facts, r[1], PANIC_COUNTING)
     for (alias, target) in ALIASES:
         if not facts.has(alias):
             continue
